@@ -2182,7 +2182,7 @@ class SourceCatalog:
             ycen = self._ycentroid
             # float output: an integer background array would give a
             # truncated integer result that cannot hold NaN
-            bkg = map_coordinates(self._background, (xcen, ycen), order=1,
+            bkg = map_coordinates(self._background, (ycen, xcen), order=1,
                                   mode='nearest', output=float)
 
             mask = np.isfinite(xcen) & np.isfinite(ycen)
